@@ -28,10 +28,19 @@ def money(x):
     return f'{x:,}' if THOUSANDS and isinstance(x, int) else str(x)
 
 
-def extract(state, seats, hero):
+# Screen names that happen to contain the words the logs use for actions
+# (single tokens, no spaces or punctuation a site would not allow)
+# Names that *begin* with "calls"/"checks" ("callstation", "checksum") are the
+# known finding H1 of C20 and are left out here (see known_findings.json).
+TRICKY_NAMES = ['3bets4val', 'xXfoldsXx', 'recheckst', 'raisesHell',
+                'McCallsen', 'allin_al', 'showsTime', 'postsman', 'wins2much']
+
+
+def extract(state, seats, hero, tricky_names=False):
     """Neutral record of the hand from the source state's operation log."""
     n = state.player_count
-    names = [NAMES[i] for i in range(n)]
+    pool = TRICKY_NAMES if tricky_names else NAMES
+    names = [pool[i] for i in range(n)]
     rec = dict(n=n, names=names, seats=seats, hero=hero,
                stacks=list(state.starting_stacks),
                final=list(state.stacks), events=[], hole={}, board=[])
